@@ -339,7 +339,10 @@ def hybrid(cfg=None, reopen_ok=False):
     # image that is larger than the offset
     bigoff = st.one_of(st.none(), st.none(), st.none(), st.tuples(st.integers(1, 2), st.integers(1, 3), st.integers(256, 1100)))
 
-    def assemble(bf, f, e, p, h, b, consistent, x86=(), big=None):
+    def assemble(bf, f, e, p, h, b, consistent, x86=(), big=None, lnk=None):
+        if e and lnk is not None:
+            # another ISO9660 name for the first EFI image (an entry is listed once per name of its boot file)
+            p = p + [dict(lnk, b=1, j=0, to=0, d=0)]
         if big is not None:
             p = p + [{'k': 'add_fp', 'd': 0, 'ns': 1, 'len': 600000, 'sz': 1, 'rsz': 1, 'usz': 1, 'lead': 7, 'salt': 7, 'mode': None, 'ck': 0, 'file': False, 'reuse': 0}]
             h = dict(h, gs=big[0], gh=big[1], po=big[2])
@@ -354,7 +357,7 @@ def hybrid(cfg=None, reopen_ok=False):
             n = len(e) // 2 - (1 if x86 else 0)
             h = dict(h, efi=(True if n >= 1 else None), mac=(n == 2), pt=(None if n else h.get('pt')))
         return [bf, f] + e + p + [h] + b
-    return program(c, st.builds(assemble, bootfile, first, efi_part, pre, add_hybrid, body, st.sampled_from([True, True, True, 'shared', False]), x86_part, bigoff))
+    return program(c, st.builds(assemble, bootfile, first, efi_part, pre, add_hybrid, body, st.sampled_from([True, True, True, 'shared', False]), x86_part, bigoff, st.one_of(st.none(), st.none(), add_link)))
 
 
 _old_any_profile = any_profile
